@@ -194,6 +194,11 @@ func xScope(r *lib.Rand) map[string]cty.Value {
 		"mstr":     cty.StringVal("sec").Mark("m"),
 		"ustr":     cty.UnknownVal(cty.String),
 		"nulstr":   cty.NullVal(cty.String),
+		"mnullst":  cty.NullVal(cty.List(cty.String)).Mark("m"),
+		"munkd":    cty.DynamicVal.Mark("m"),
+		"mnum":     cty.NumberIntVal(5).Mark("m"),
+		"munkstr":  cty.UnknownVal(cty.String).Mark("m"),
+		"mnulstr":  cty.NullVal(cty.String).Mark("m"),
 		// scope variables named like block types: the default iterator of a dynamic block shadows them
 		"blk": cty.StringVal("scope-blk"),
 		"svc": cty.ObjectVal(map[string]cty.Value{"key": cty.StringVal("scope-key"), "value": cty.StringVal("scope-value")}),
@@ -305,13 +310,13 @@ func (g *xGen) labelExpr(own xIter, scope []xIter) string {
 		return r.Pick([]string{"n", "t", "12", `["x"]`, "lst", "{}"})
 	case 15:
 		g.count("expand-gen:label:null")
-		return r.Pick([]string{"null", "nulstr", "nul"})
+		return r.Pick([]string{"null", "nulstr", "nul", "mnulstr"})
 	case 16:
 		g.count("expand-gen:label:unknown")
-		return r.Pick([]string{"ustr", "unkd", "partunk[1]"})
+		return r.Pick([]string{"ustr", "unkd", "partunk[1]", "munkstr"})
 	case 17:
 		g.count("expand-gen:label:marked")
-		return r.Pick([]string{"mstr", "melems[0]", "mlst[0]", `"p-${mstr}"`})
+		return r.Pick([]string{"mstr", "melems[0]", "mlst[0]", `"p-${mstr}"`, "mnum"})
 	case 18:
 		g.count("expand-gen:label:eval-error")
 		return r.Pick([]string{"nosuch", "lst[99]", "s.nosuch"})
@@ -361,7 +366,7 @@ func (g *xGen) forEach(scope []xIter) (string, string) {
 	case 12:
 		return pick("variable-empty", "none", "empty", "emptyobj")
 	case 13:
-		return pick("null", "none", "nul", "nullst", "null")
+		return pick("null", "none", "nul", "nullst", "null", "mnullst")
 	case 14:
 		return pick("non-iterable", "none", "s", "n", "nulstr", "ustr", "mstr", `"x"`)
 	case 15:
@@ -375,7 +380,7 @@ func (g *xGen) forEach(scope []xIter) (string, string) {
 	case 19:
 		return pick("marked-elements", "str", "melems")
 	case 20:
-		return pick("marked-unknown", "any", "munk")
+		return pick("marked-unknown", "any", "munk", "munk", "munkd")
 	case 21:
 		return pick("eval-error", "none", "nosuch", "lst[99]", "obj.nosuch", "[nosuch]")
 	case 22:
@@ -840,7 +845,7 @@ func corrExpand(cx *lib.Ctx) {
 		return
 	}
 	R := cx.R.Fork()
-	n := cx.Scale(6000, 200000)
+	n := cx.Scale(6000, 100000)
 	t0 := cx.Elapsed()
 	for i := 0; i < n; i++ {
 		corrExpandOne(cx, R.Fork())
@@ -963,10 +968,8 @@ func corrExpandOne(cx *lib.Ctx, r *lib.Rand) {
 		}
 		if len(vs) == 0 {
 			outs = append(outs, "V=-")
-			outs = append(outs, "V2=-")
 		} else {
 			outs = append(outs, "V="+strings.Join(vs, " "))
-			outs = append(outs, "V2="+strings.Join(vs, " "))
 		}
 	}()
 	if failed {
